@@ -126,6 +126,17 @@ def family(tier, seed):
         items.append(("skeleton", p, {}))
     for p in pf.deep_programs(nesting=8, chain=20):
         items.append(("deep", p, {}))
+    # fields shared between splitters and conditions (the documented Complete Example and variants)
+    from vf.props.C07 import structure_programs
+    for kind, name, p in structure_programs():
+        if kind in ("shared", "tuple-ids", "nested-tuples", "single-tuple"):
+            items.append((kind, p, {}))
+    from vf.ref.dsl import Program, If, Cmp, Id, Lit, Tup, relabel
+    from vf.families.programs import R
+    items.append(("shared", relabel(Program("sh", If(((Cmp(Id("uid"), "in", Tup((Lit(1), Lit(2), Lit(3)))), R(2)),), None),
+                                            "s", ("uid",))), {}))
+    items.append(("shared", relabel(Program("sh2", If(((Cmp(Id("uid"), "==", Id("other")), R()),
+                                                        (Cmp(Id("dev"), "!=", Lit("x")), R(2))), R()), None, ("dev", "uid"))), {}))
     fam = sf.splitter_family(tier, seed)
     rng.shuffle(fam)
     for bname, p in fam[: (40 if tier == "quick" else 400)]:
